@@ -217,9 +217,18 @@ CLAIMS = {
    text="For arbitrary bytes: every list-free message decoder either raises a listed exception or consumes exactly the "
         "declared length (>= its fixed part); Connection.read and OFConnection.read terminate (loop variants), never index "
         "outside the buffer, keep a suffix of the stream; OFConnection.read raises nothing (an escaping exception would stop "
-        "the switch's I/O loop). Six genuine defects found by refuted obligations were repaired (fix: commits). Bounded "
+        "the switch's I/O loop); the type -> decoder table has an entry for exactly the 22 OpenFlow 1.0 types. The two I/O LOOPS "
+        "themselves (generators, run by the evaluator since 2026-09-25, the harness playing select): OpenFlow_01_Task.run - "
+        "whatever one connection's read() returns or raises (True / False / None / AssertionError / UnderrunError / IndexError / a "
+        "handler's RuntimeError / ConnectionResetError / OSError) the loop goes back to Select, that connection is closed once and "
+        "dropped from the select set, the other stays and is read when reported, only an error on the listening socket ends the "
+        "loop; RecocoIOLoop.run with the real RecocoIOWorker methods - a worker whose recv ends / fails is closed once and no "
+        "longer watched, the other worker's bytes are appended and handed on once. Seven genuine defects found by refuted "
+        "obligations were repaired (fix: commits). Bounded "
         "stand-in: 18k structured corruptions through the real decoders on both sides.",
-   note="trusted: pyvc, z3, family contract for list-carrying decoders; liveness of the task loops not decided.",
+   note="trusted: pyvc, z3, family contract for list-carrying decoders; loop units bounded (two connections / workers, 2..4 select "
+        "rounds); sockets, select and the Connection constructor are stand-ins / callees; liveness (that select reports a readable "
+        "socket) not decided.",
    ref="7/C10"),
  "C03": dict(
    text="ofp_match.matches_with_wildcards is proved equal to the OpenFlow 1.0 match predicate for every wildcard word, "
